@@ -10,7 +10,10 @@
 //	        batchings, single requests and the read loops of the handlers (paging.go)
 //	e2e     span forests ingested through otlp.ProcessTraceIngest into a fresh store (one worker
 //	        process per scenario), then ProcessSearchTracesRequest (all pages), ProcessGanttChartRequest
-//	        (per trace), ProcessGeneratedDepGraph and ProcessRedTracesIngest (+ query of red-traces)
+//	        (per trace), ProcessGeneratedDepGraph and ProcessRedTracesIngest (+ query of red-traces);
+//	        kinds agg*: the spans arrive in several periods, the hourly dependency-graph job (one iteration of
+//	        DependencyGraphThread, verif hook) stores a graph after each, the RED job runs several times, then
+//	        ProcessAggregatedDependencyGraphs / ProcessGetDependencies over ranges of stored graphs (agg.go)
 //
 //	(a) property oracle: the property text evaluated on the handlers' answers with an independent
 //	    specification written in Go (spec in e2e.go / direct.go); specific failure classes;
@@ -64,7 +67,14 @@ func main() {
 				continue
 			}
 			before := len(sum.OracleFailures)
-			oracle(e, o, sum)
+			if len(e.Sc.Spans) > 0 || e.Sc.Agg == nil {
+				oracle(e, o, sum)
+			}
+			if e.Sc.Agg != nil {
+				oracleAgg(e, o, sum)
+				_, nc := coqAgg(i, e, o)
+				fmt.Println("   periods", len(e.Sc.Agg.Periods), "ranges", len(e.Sc.Agg.Ranges), "coq checks", nc)
+			}
 			cnt := func(n *GanttNode) int { return 0 }
 			_ = cnt
 			nodes := 0
